@@ -200,7 +200,7 @@ CLAIMED = {
    text='Hand-written Lean model (Model/Assembly.lean) of the index book-keeping of PanelAssembly (__init__ ranges, get_size, calc_k0/kG0/kM/kT/'
         'fint/fext loops with row0=p.row_start, get_k0_conn block placement, make_symmetric) and of StiffPanelBay (get_size, running row0/col0 '
         'of 2-D stiffeners, 1-D stiffeners at 0, base/flange/connection blocks of the three stiffener classes, calc_fext) with every kernel a '
-        'PARAMETER; 24 theorems for ALL lists of panels/stiffeners, series orders and component matrices: ranges tile [0,size), size = sum '
+        'PARAMETER; 26 theorems for ALL lists of panels/stiffeners, series orders and component matrices: ranges tile [0,size), size = sum '
         'of component sizes, global matrix = mirrored upper triangle of the sum of the stand-alone matrices placed at their range starts '
         '(+ connection blocks; coupling block always in the upper triangle), block-diagonal without connections, force vectors = '
         'concatenation, fint = concatenation + k_conn c, bay offsets = range starts for any numbers/orders of the three stiffener kinds, '
@@ -208,11 +208,23 @@ CLAIMED = {
         'for J), adding a stiffener adds exactly its placed blocks, stiffener contribution symmetric. Tie: every component call made by a '
         'global method is recorded (kernel, row0, col0, matrix), un-shifted, sent as exact rationals to the Lean driver which re-places it '
         'with the MODEL offsets; call sequence compared exactly, matrices to 1e-9. Implementation arm: stand-alone sum oracle, skin cut '
-        'elsewhere gives the same k0/kG0/kM, (bay with stiffener) - (bay without) symmetric PSD. Six defects repaired, three recorded.',
-   note='Trusted: Lean kernel, Mathlib, hand model (tied on explored cases); kernel placement at (row0,col0) and PSD of stiffener contributions are '
-        'checked numerically (not proved); 1-D blade flange: beam energy of its kernel as is (two known findings: mass coupling doubled, twist '
+        'elsewhere gives the same k0/kG0/kM, (bay with stiffener) - (bay without) symmetric PSD. Six defects repaired, three recorded. '
+        'STIFFENER KERNELS: the nine kernels of compmech/stiffener/models/*.pyx are REGENERATED into Gen/Stiff/* on every run (tools/translate/gen_stiff.py) '
+        'and 23 further theorems characterise them: 2-D blade skin-flange (fkCss/fkCsf/fkCff) and T-stiffener skin-base over the strip (fkCppy1y2/fkCpby1y2/'
+        'fkCbbpby1y2, incl. the mapped-argument integrals and c1 = (y2-y1)/b) = Hessian of kt/2 int |jump(u,v,w)|^2 + kr/2 int jump(rotation)^2 with the jump '
+        'tables of Spec/StiffInterface.lean, symmetric and positive semi-definite over R for kt, kr >= 0; 1-D blade flange: fk0f = Hessian of the beam energy '
+        '1/2 int bf [E1 (u,x + df w,xx)^2 + F1 w,xx^2 + Jxx w,xy^2 - 2 S1 (u,x + df w,xx) w,xy], fkG0f = Hessian of 1/2 int Fx w,x^2, fkMf = Hessian of the kinetic '
+        'form AS ENCODED (coupling 2 df), all symmetric; fk0f PSD iff the beam law handed over is, fkG0f PSD for Fx >= 0, fkMf only under (2 df)^2 <= I '
+        '(blade1d_kMf_psd_partial) which the caller\'s geometry never meets (blade1d_mass_weight_encoded_not_psd) - kernel-checked counter-example with real '
+        'integrals of concrete polynomials (blade1d_kMf_not_psd_counterexample). V: the translated IR interpreted numerically against the running kernels; '
+        'the same files executed from their text (source reading); the energies of the theorems against the running kernels and, in the search, against the source as written.',
+   note='Trusted: Lean kernel, Mathlib, hand model (tied on explored cases), translator gen_stiff.py + pyx.py (validated by V and doubled by the source reading each run), '
+        'operator tables Spec/StiffInterface.lean; the abstract integral symbols are tied to the C tables by C10 (for the mapped family: map_*_integral) in words only; '
+        'kernel placement at (row0,col0), the loop nest of the stiffener kernels and PSD of a whole finalised stiffener contribution are '
+        'checked numerically (PSD is proved for the per-pair kernel values); 1-D blade flange: beam energy of its kernel as is (two known findings: mass coupling doubled, twist '
         'stiffness without modulus - .pyx / modelling defects, not repairable here).',
-   technique='Lean 4 proof over hand model (kernels as parameters) + recorded-component driver correspondence + stand-alone-sum oracle', ref='4/C13'),
+   technique='Lean 4 proof over hand model (kernels as parameters) + recorded-component driver correspondence + stand-alone-sum oracle; stiffener kernels: '
+             'proof over model regenerated from source + translation validation + source reading + energy oracle', ref='4/C13'),
  'C18': dict(
    text='Hand-written Lean model (Model/ConeCylGlue.lean) of ConeCyl._rebuild (geometry from any subset of r1,r2,H,L with Python truthiness; '
         'Nxxtop from Fc/MLA/xiLA; prescribed amplitudes), exclude_dofs_matrix (index shifting of both loops, the three dense blocks), '
